@@ -615,62 +615,88 @@ def run_single(binary, line, budget):
     return p.returncode, (o[0] if o else None)
 
 
-def run_resilient(binary, lines, timeout=1500, max_restarts=40, notes=None):
-    """run an implementation harness on `lines`.  When the process ends early the case it was working on is RE-RUN ALONE (CPU
-    budget 5 times larger) before anything is concluded:
-      HANG      the case used up its CPU budget twice (c14_watchdog.h; CPU time does not depend on the load)  -> failing input
-      CRASH ..  the process died on this case by a signal of its own (SIGSEGV, SIGABRT, ...), also when alone     -> failing input
-      KILLED    SIGKILL / SIGTERM (OOM killer, operator), also when alone; TIMEOUT: the wall-clock limit of the check itself
-                -> tooling: inconclusive, listed in the evidence, never counted as a pass or as a violation
+STAGE1_CPU = 10          # CPU seconds per case in a stream (the calls take micro- to milliseconds)
+CONFIRM_CPU = 30         # CPU seconds for the one re-run alone that confirms "does not return"
+MAX_CONFIRMED = 3        # confirmed hangs per RUN (all streams together), then the stream stops
+MAX_OVERRUNS = 6         # first-stage budget overruns per RUN, then the stream stops
+MAX_CRASHES_PER_FORM = 4
+
+
+def new_hang_state():
+    """shared by every implementation stream of one run (main harness, fixed copies, functor assignment)"""
+    return {"confirmed": 0, "overruns": 0, "dead_forms": set(), "crashes": {}, "stopped": None}
+
+
+def run_resilient(binary, lines, timeout=1500, max_restarts=40, notes=None, forms=None, state=None):
+    """run an implementation harness on `lines` (forms[i] = the call form line i drives).  When the process ends early the case it
+    was working on is RE-RUN ALONE before anything is concluded:
+      HANG      the case used up STAGE1_CPU in the stream and CONFIRM_CPU alone (c14_watchdog.h; CPU time is load-independent)
+                -> failing input "does-not-return"; its call form is not driven any more in this run (remaining lines: NOT-RUN)
+      CRASH ..  the process died on this case by a signal of its own, also when alone -> failing input; after MAX_CRASHES_PER_FORM
+                crashes of a form that form is not driven any more
+      KILLED    SIGKILL / SIGTERM (OOM killer, operator), also when alone; TIMEOUT: the wall-clock limit of the check itself;
+      NOT-RUN   form given up / the run's caps (MAX_CONFIRMED confirmations, MAX_OVERRUNS overruns) reached
+                -> not compared: listed in the evidence, never counted as a pass (floors) nor as a violation
     A case that misbehaved in the stream but answers when run alone keeps that answer; the event is noted."""
     notes = notes if notes is not None else []
-    out, start, restarts, err, hangs = [], 0, 0, "", 0
-    budget = int(os.environ.get("C14_CPU_BUDGET", "20"))        # CPU seconds per case in the stream (cases take milliseconds); 5x when re-run alone
-    while start < len(lines):
-        if hangs >= 12:
-            out += ["KILLED"] * (len(lines) - len(out))          # enough concrete hanging inputs: the rest of the stream is not run (floor says so)
-            notes.append("stream stopped after 12 cases that do not return")
+    state = state if state is not None else new_hang_state()
+    forms = forms if forms is not None else ["?"] * len(lines)
+    res = [None] * len(lines)
+    restarts, err = 0, ""
+    while True:
+        if state["stopped"]:
             break
-        env_budget = budget if hangs < 3 else 5                # after 3 confirmed hangs the stream goes on with a short budget
-        os.environ["C14_CPU_BUDGET"] = str(env_budget)
+        todo = [k for k in range(len(lines)) if res[k] is None and forms[k] not in state["dead_forms"]]
+        if not todo:
+            break
+        os.environ["C14_CPU_BUDGET"] = str(STAGE1_CPU)
         try:
-            rc, o, e = vf.run_lines(binary, "".join(l + "\n" for l in lines[start:]), timeout=timeout)
+            rc, o, e = vf.run_lines(binary, "".join(lines[k] + "\n" for k in todo), timeout=timeout)
         finally:
             os.environ.pop("C14_CPU_BUDGET", None)
         err += e[-500:]
-        o = o[:len(lines) - start]
+        o = o[:len(todo)]
         hang = bool(o) and o[-1] == "HANG" and rc == 42
         if hang:
             o = o[:-1]
-        out += o
-        if len(out) >= len(lines):
+        for k, l in zip(todo, o):
+            res[k] = l
+        if len(o) >= len(todo):
             break
         if rc == 124 and "[timeout]" in e:
-            # our own wall-clock limit (machine load), not a verdict about the implementation: the rest of the stream is inconclusive
-            out += ["TIMEOUT"] * (len(lines) - len(out))
+            for k in todo[len(o):]:
+                res[k] = "TIMEOUT"           # our own wall-clock limit (machine load): the rest of the stream is inconclusive
             break
-        k = len(out)                                   # the case the process was working on
-        if hang and hangs >= 3:
-            out.append("HANG"); hangs += 1; restarts += 1; start = len(out)     # same behaviour as three cases confirmed alone
-            continue
-        rc1, l1 = run_single(binary, lines[k], 5 * budget)
+        k = todo[len(o)]                     # the case the process was working on
+        if hang:
+            state["overruns"] += 1
+        rc1, l1 = run_single(binary, lines[k], CONFIRM_CPU)
         if rc1 in KILLED_BY_ENV or (rc in KILLED_BY_ENV and rc1 != 0 and rc1 != 42):
-            rc1, l1 = run_single(binary, lines[k], 5 * budget)       # once more: the environment may have calmed down
+            rc1, l1 = run_single(binary, lines[k], CONFIRM_CPU)       # once more: the environment may have calmed down
         if l1 == "HANG" and rc1 == 42:
-            out.append("HANG"); hangs += 1
+            res[k] = "HANG"
+            state["confirmed"] += 1
+            state["dead_forms"].add(forms[k])
+            notes.append("call form %s does not return (case %d): not driven any more in this run" % (forms[k], k))
         elif rc1 == 0 and l1 is not None:
-            out.append(l1)
-            notes.append("case %d ended the stream (rc=%s%s) but answers when run alone" % (k, rc, ", HANG" if hang else ""))
+            res[k] = l1
+            notes.append("case %d ended the stream (rc=%s%s) but answers when run alone" % (k, rc, ", first-stage CPU budget" if hang else ""))
         elif rc1 in KILLED_BY_ENV or rc1 == 124:
-            out.append("KILLED")
+            res[k] = "KILLED"
             notes.append("case %d: process killed from outside / wall-clock limit (rc=%s, alone rc=%s)" % (k, rc, rc1))
         else:
-            out.append("CRASH rc=%s" % rc1)
+            res[k] = "CRASH rc=%s" % rc1
+            state["crashes"][forms[k]] = state["crashes"].get(forms[k], 0) + 1
+            if state["crashes"][forms[k]] >= MAX_CRASHES_PER_FORM:
+                state["dead_forms"].add(forms[k])
+                notes.append("call form %s crashed %d times: not driven any more in this run" % (forms[k], MAX_CRASHES_PER_FORM))
         restarts += 1
-        start = len(out)
-        if restarts >= max_restarts + hangs:
-            out += ["CRASH-LIMIT"] * (len(lines) - len(out))
+        if state["confirmed"] >= MAX_CONFIRMED or state["overruns"] >= MAX_OVERRUNS:
+            state["stopped"] = "%d calls confirmed not to return, %d first-stage CPU overruns: caps of the run reached, the streams stop" % (state["confirmed"], state["overruns"])
+            notes.append(state["stopped"])
+        if restarts >= max_restarts:
             break
+    out = [l if l is not None else "NOT-RUN" for l in res]
     return out, restarts, err
 
 
@@ -1129,7 +1155,11 @@ def main(tier, replay=None):
     # ---- run both sides
     import time
     t1 = time.time()
-    iout, ncrash, ierr = run_resilient(himpl, [c["impl"] for c in cases], notes=notes)
+    hstate = new_hang_state()
+
+    def form_of(c):
+        return "%s/%s" % (c["kind"], c.get("sub", ""))
+    iout, ncrash, ierr = run_resilient(himpl, [c["impl"] for c in cases], notes=notes, forms=[form_of(c) for c in cases], state=hstate)
     if "TIMEOUT" in iout:
         inconclusive.append("implementation harness hit the time limit of the check: %d of %d cases not run" % (iout.count("TIMEOUT"), len(cases)))
     vf.log("[C14] %d cases generated in %.1fs, implementation ran in %.1fs (%d crashes)" % (len(cases), t1 - chk.t0, time.time() - t1, ncrash))
@@ -1209,7 +1239,7 @@ def main(tier, replay=None):
         key = "%s/%s/%s" % (kind, c.get("sub", ""), c.get("hist", ""))
         dist[key] = dist.get(key, 0) + 1
         il = iout[i]
-        if il in ("TIMEOUT", "KILLED"):
+        if il in ("TIMEOUT", "KILLED", "NOT-RUN"):
             nskipped[kind] = nskipped.get(kind, 0) + 1       # tooling: inconclusive, not compared
             continue
         ncompared[kind] = ncompared.get(kind, 0) + 1
@@ -1250,8 +1280,8 @@ def main(tier, replay=None):
                 cls = {"ringrns": "RNSsystem<RING != Integer>", "lift": "ChineseRemainder (lifting chain)", "int": "IntRNSsystem", "rns": "RNSsystem<Integer,%s>" % CXX.get(c.get("sub"), "?"), "fixed": "RNSsystemFixed<Integer>",
                        "cra": "ChineseRemainder", "poly": "Poly1CRT<%s>" % PCXX.get(c.get("sub"), "?")}[kind]
                 chk.count((kind, "hang", i), nontrivial=False)
-                chk.fail_input(cls + " (does not return)", "obtained by %s" % c.get("hist", ""), c, "a result", il,
-                               "the call used up its CPU-time budget in the stream and again when run alone with 5 times the budget (CPU time is load-independent)")
+                chk.fail_input(cls + " (does not return)", "does-not-return", c, "a result", il,
+                               "obtained by %s: the call used up %d s CPU in the stream and %d s CPU when run alone (CPU time is load-independent)" % (c.get("hist", ""), STAGE1_CPU, CONFIRM_CPU))
             elif il.startswith(("CRASH", "EXCEPTION", "BAD-")):
                 spec_ok = False
                 cls = {"ringrns": "RNSsystem<RING != Integer>", "rnsexc": "RNSsystem::MixedRadixToRing", "lift": "ChineseRemainder (lifting chain)", "int": "IntRNSsystem", "rns": "RNSsystem<Integer,%s>" % CXX.get(c.get("sub"), "?"), "fixed": "RNSsystemFixed<Integer>",
@@ -1414,7 +1444,7 @@ def main(tier, replay=None):
     else:
         fc = [c for c in cases if c["kind"] == "fixed"][:400]
         fh = [FIX_COPY_HISTS[j % len(FIX_COPY_HISTS)] for j in range(len(fc))]
-        fo, _, fe = run_resilient(hfix, ["%s %s" % (h, c["body"]) for h, c in zip(fh, fc)], timeout=900, notes=notes)
+        fo, _, fe = run_resilient(hfix, ["%s %s" % (h, c["body"]) for h, c in zip(fh, fc)], timeout=900, notes=notes, forms=["fixedcopy/" + h for h in fh], state=hstate)
         fm = None
         if drv:                       # the copies are objects of the model as well (fix_copy / fix_assign, member by member)
             rcm, fm, fme = run_par(drv, ["fixed %s %s %s 0" % (F_FIX, h, c["body"]) for h, c in zip(fh, fc)], nproc=4, timeout=900)
@@ -1428,7 +1458,7 @@ def main(tier, replay=None):
             chk.broke("c14_fixedcopy failed", fe)
         else:
             for j, (h, c, l) in enumerate(zip(fh, fc, fo)):
-                if l in ("KILLED", "TIMEOUT"):
+                if l in ("KILLED", "TIMEOUT", "NOT-RUN"):
                     nskipped["fixedcopy"] = nskipped.get("fixedcopy", 0) + 1
                     continue
                 ncompared["fixedcopy"] = ncompared.get("fixedcopy", 0) + 1
@@ -1439,7 +1469,7 @@ def main(tier, replay=None):
                 mv = fm[j].split()[0] if fm is not None and fm[j].split() else None
                 if l.strip() != str(V):
                     if l == "HANG":
-                        chk.fail_input(SITE_FIXCOPY + " (does not return)", "obtained by %s" % h, dict(c, impl="c14_fixedcopy: %s %s" % (h, c["body"])), V, l, "CPU budget used up twice")
+                        chk.fail_input(SITE_FIXCOPY + " (does not return)", "does-not-return", dict(c, impl="c14_fixedcopy: %s %s" % (h, c["body"])), V, l, "CPU budget used up twice")
                     elif len(c["ps"]) % 2 == 1 and not (0 <= c["rs"][-1] < c["ps"][-1]) and facts["fixed_leaf"] == "copied" and mv == l.strip():
                         chk.fail_input("RNSsystemFixed<Integer>::RnsToRing", "non-canonical residue of the unpaired last prime", dict(c, impl="c14_fixedcopy: %s %s" % (h, c["body"])), V, l,
                                        "RnsToRingLeft returns the residue of a left leaf unreduced (filed; repair frag/C14.fix-4)")
@@ -1462,20 +1492,24 @@ def main(tier, replay=None):
             chk.broke("harness/c14_craassign.C does not compile against /repo for another reason", l4)
     else:
         ac = [c for c in cases if c["kind"] == "cra" and c["sub"] in ("mi64", "mint", "mdouble")][:300]
-        ao, _, ae = run_resilient(hasg, ["%s %d %d %d %d %d" % (c["sub"], 1 if c["red"] else 0, c["M"], c["D"], c["A"], c["e"]) for c in ac], timeout=900, notes=notes)
+        ao, _, ae = run_resilient(hasg, ["%s %d %d %d %d %d" % (c["sub"], 1 if c["red"] else 0, c["M"], c["D"], c["A"], c["e"]) for c in ac], timeout=900, notes=notes, forms=["craassign/%s/%d" % (c["sub"], c["red"]) for c in ac], state=hstate)
         if "TIMEOUT" in ao:
             inconclusive.append("c14_craassign hit the time limit of the check")
         elif len(ao) != len(ac):
             chk.broke("c14_craassign failed", ae)
         else:
             for c, l in zip(ac, ao):
-                if l in ("KILLED", "TIMEOUT"):
+                if l in ("KILLED", "TIMEOUT", "NOT-RUN"):
                     nskipped["craassign"] = nskipped.get("craassign", 0) + 1
                     continue
                 ncompared["craassign"] = ncompared.get("craassign", 0) + 1
                 chk.count(("craassign", c["sub"], c["red"], c["M"], c["D"], c["A"], c["e"]), nontrivial=c["M"] > 1)
                 bump("ChineseRemainder<IntegerDom,%s,%s>::operator= (over a used functor; self)" % (CXX[c["sub"]], "true" if c["red"] else "false"))
                 M, D, A, e = c["M"], c["D"], c["A"], c["e"]
+                if l == "HANG":
+                    chk.fail_input(SITE_CRAASSIGN + " (does not return)", "does-not-return", dict(c, impl="c14_craassign: " + l), "a result", l,
+                                   "the call used up %d s CPU in the stream and %d s CPU when run alone" % (STAGE1_CPU, CONFIRM_CPU))
+                    continue
                 try:
                     v = [int(x) for x in l.split()]
                     ok = len(v) == 3 and v[0] == v[1] == v[2] and (v[0] - A) % M == 0 and (v[0] - e) % D == 0
@@ -1514,6 +1548,9 @@ def main(tier, replay=None):
     if inconclusive or floor_missed:
         print("INCONCLUSIVE property=C14 %s" % "; ".join((inconclusive + floor_missed)[:6]))
     chk.cov["stream_notes"] = notes[:20]
+    chk.cov["hang_handling"] = {"stage1_cpu_s": STAGE1_CPU, "confirm_cpu_s": CONFIRM_CPU, "max_confirmed": MAX_CONFIRMED, "max_overruns": MAX_OVERRUNS,
+                                "max_crashes_per_form": MAX_CRASHES_PER_FORM, "confirmed": hstate["confirmed"], "overruns": hstate["overruns"],
+                                "forms_given_up": sorted(hstate["dead_forms"]), "stopped": hstate["stopped"]}
     chk.cov["call_forms"] = dict(sorted(forms.items()))
     chk.cov["distribution"] = dist
     chk.cov["source_facts"] = {k: (v if isinstance(v, (str, list)) else str(v)) for k, v in facts.items()}
